@@ -1,9 +1,10 @@
 (* Extraction of the executable model (which calls the GENERATED GetVertices / Ceil). ExtrOcamlBasic only. *)
 From Coq Require Import ZArith List Extraction ExtrOcamlBasic.
 From MomoCommon Require Import GenPrelude.
-From C18 Require Gen_Vertices Gen_Ceil Model RawLife.
+From C18 Require Gen_Vertices Gen_Ceil Model RawLife Static.
 Separate Extraction
   Gen_Vertices.GetVertices Gen_Ceil.Ceil
   List.filter (* lib/zutil.ml says List.filter, and the extracted List.ml shadows OCaml's *)
-  Model.init Model.add Model.after Model.get_offset Model.contains Model.vertices
+  Model.init Model.add Model.after Model.get_offset Model.contains Model.vertices Model.is_mutable Model.add_f
+  Static.struct_layout Static.s_get_offset Static.s_contains Static.s_total Static.s_set_mutable Static.s_reset Static.s_is_mutable
   RawLife.create_raw RawLife.destroy_raw.
